@@ -90,6 +90,7 @@ impl Exec {
                     let a = s.allocated_pages();
                     if let Some(b) = self.abort_baseline
                         && a != b
+                        && !self.panic_leak
                     {
                         self.viol("C05", "abort-leak", format!("allocated pages {b} before the abandoned transaction, {a} after it"));
                     }
@@ -159,6 +160,9 @@ impl Exec {
 
         // ---- end of transaction
         let end = if !self.viols.is_empty() { End::Abort } else { t.end };
+        // a deferred close performed while unwinding is not a clean close (by design nothing is
+        // committed then): that combination is not part of the lifecycle step
+        let end = if drop_db && end == End::Panic { End::Drop } else { end };
         match end {
             End::Commit => {
                 let v = self.versions.len();
@@ -242,6 +246,18 @@ impl Exec {
                         self.abort_baseline = None;
                     }
                 }
+            }
+            End::Panic => {
+                self.stats.aborts += 1;
+                self.disk.marker(Marker::Abort);
+                let r = catch_unwind(AssertUnwindSafe(move || {
+                    let _live = txn;
+                    panic!("simulated application panic with a live write transaction");
+                }));
+                debug_assert!(r.is_err());
+                // documented: the leak lasts until the next open; page accounting is not judged
+                self.abort_baseline = None;
+                self.panic_leak = true;
             }
             End::Drop => {
                 self.stats.aborts += 1;
